@@ -7,7 +7,7 @@ Inductive cin :=
 | Conv (fn : nat) (src : option kind) (t : terms)        (* 0 pubo_to_puso 1 puso_to_pubo 2 qubo_to_quso 3 quso_to_qubo *)
 | Method (k : kind) (t : terms) (es : list edit) (meth : nat)   (* object built from t, edited in place, then 0 to_qubo 1 to_quso 2 to_pubo 3 to_puso *)
 | ConvSol (k : kind) (t : terms) (sol : list (nat * Z)) (flag : bool)
-| ExportQ (t : terms) | ExportH (t : terms) | ExportJ (t : terms)
+| ExportQ (lab : bool) (t : terms) | ExportH (lab : bool) (t : terms) | ExportJ (lab : bool) (t : terms)   (* lab: a labelled QUBO / QUSO object (the properties are inherited) *)
 | ToMatrix (t : terms) (sym : bool)
 | FromMatrix (es : list (nat * nat * Q)).
 
@@ -56,10 +56,10 @@ Definition run_case (c : cin) : cout :=
       match bind (m_create k t) (fun m => convert_solution (is_spin k) m sol flag) with
       | Ok l => OSol l | Err e => OErr e
       end
-  | ExportQ t => match m_create KQuboM t with Ok m => OTerms (export_Q (tm m)) | Err e => OErr e end
-  | ExportH t => match m_create KQusoM t with
+  | ExportQ lab t => match m_create (if lab then KQubo else KQuboM) t with Ok m => OTerms (export_Q (tm m)) | Err e => OErr e end
+  | ExportH lab t => match m_create (if lab then KQuso else KQusoM) t with
                  | Ok m => OTerms (map (fun '(i, v) => ([i], v)) (export_h (tm m))) | Err e => OErr e end
-  | ExportJ t => match m_create KQusoM t with Ok m => OTerms (export_J (tm m)) | Err e => OErr e end
+  | ExportJ lab t => match m_create (if lab then KQuso else KQusoM) t with Ok m => OTerms (export_J (tm m)) | Err e => OErr e end
   | ToMatrix t sym =>
       match m_create KQuboM t with
       | Ok m => match qubo_to_matrix (tm m) sym with
